@@ -35,24 +35,37 @@ func SentinelMiddleware(opts ...Option) iris.Handler {
 
 		defer entry.Exit()
 		// An iris handler has no return value: it reports a failure with ctx.SetErr, and the context has
-		// one slot for it. An earlier handler may have left an error there and gone on: it is taken out
-		// while the chain behind the adapter runs, so that whatever is in the slot afterwards was set
-		// for this entry (also when it is the very same error value), and put back if nothing was.
+		// one slot for it. An earlier handler may have left an error there and gone on. While the chain
+		// behind the adapter runs a stand-in takes its place, which reads like it (message, Unwrap and
+		// through that errors.Is / As, public or private as it was) but is a value of its own: if it is
+		// still there afterwards nothing was set for this entry, and the earlier error is put back;
+		// anything else in the slot - also the very same error value - was.
+		var standIn *earlierError
 		public, earlier := c.GetErrPublic()
 		if earlier != nil {
-			c.SetErr(nil)
+			standIn = &earlierError{earlier}
+			setErr(c, public, standIn)
 		}
 		c.Next()
-		if err := c.GetErr(); err != nil {
+		if err := c.GetErr(); err != nil && (standIn == nil || err != error(standIn)) {
 			sentinel.TraceError(entry, err)
-		} else if earlier != nil {
+		} else if standIn != nil {
 			// (as it was: an error stored with SetErrPrivate must not come back as one that iris shows to
 			// the client)
-			if public {
-				c.SetErr(earlier)
-			} else {
-				c.SetErrPrivate(earlier)
-			}
+			setErr(c, public, earlier)
 		}
 	}
 }
+
+func setErr(c iris.Context, public bool, err error) {
+	if public {
+		c.SetErr(err)
+	} else {
+		c.SetErrPrivate(err)
+	}
+}
+
+// earlierError stands in for an error that was in the context before the entry existed, see SentinelMiddleware.
+type earlierError struct{ error }
+
+func (e *earlierError) Unwrap() error { return e.error }
